@@ -4,6 +4,7 @@ import (
 	"flag"
 	"fmt"
 	"os"
+	"runtime/debug"
 	"sort"
 	"strconv"
 	"strings"
@@ -47,6 +48,23 @@ func applies(rd ruleDef, c Config) bool {
 		return c.GOOS == "linux" && c.GOARCH == "amd64" && c.Tags == ""
 	}
 	return true
+}
+
+// panicWhere names the checker frames of a recovered panic (with VERIF_DEBUG set).
+func panicWhere() string {
+	if os.Getenv("VERIF_DEBUG") == "" {
+		return ""
+	}
+	var out []string
+	for _, ln := range strings.Split(string(debug.Stack()), "\n") {
+		if strings.Contains(ln, "/verif/checker/") {
+			out = append(out, strings.TrimSpace(ln))
+		}
+	}
+	if len(out) > 8 {
+		out = out[:8]
+	}
+	return " at " + strings.Join(out, " < ")
 }
 
 func main() {
@@ -96,6 +114,10 @@ func main() {
 		for _, f := range p.ModuleFuncs("") {
 			fmt.Println(funcKey(f))
 		}
+		if os.Getenv("VERIF_DUMP_STORES") != "" {
+			dumpSharedStores(p)
+			return
+		}
 		dumpLayouts(p)
 		dumpShapes(p)
 		return
@@ -135,7 +157,7 @@ func main() {
 					func() {
 						defer func() {
 							if e := recover(); e != nil {
-								r.fatal = append(r.fatal, fmt.Sprintf("rule %s panicked on %s: %v", rd.Name, c, e))
+								r.fatal = append(r.fatal, fmt.Sprintf("rule %s panicked on %s: %v%s", rd.Name, c, e, panicWhere()))
 							}
 						}()
 						rd.Fn(r, p, rd.Name)
@@ -195,7 +217,7 @@ func main() {
 			func() {
 				defer func() {
 					if e := recover(); e != nil {
-						r.fatal = append(r.fatal, fmt.Sprintf("rule %s panicked on %s: %v", rd.Name, c, e))
+						r.fatal = append(r.fatal, fmt.Sprintf("rule %s panicked on %s: %v%s", rd.Name, c, e, panicWhere()))
 					}
 				}()
 				rd.Fn(r, p, rd.Name)
